@@ -262,6 +262,34 @@ pub fn run(ctx: &Ctx) -> i32 {
         }
       }
     }
+    // fixed-depth builder: whole base cells (every subset of the 12 base cells at depth 0; groups of
+    // consecutive base cells at depths 1 and 2; power-of-four runs from aligned starts)
+    if j < 12 {
+      for mask in (0..4096u32).filter(|m| m % 12 == j as u32) {
+        let cells: Vec<u64> = (0..12u64).filter(|b| mask >> b & 1 == 1).collect();
+        if cells.is_empty() {
+          continue;
+        }
+        for full in [true, false] {
+          p.stratum("fixed-depth-builder", 1, 1);
+          if let Some(v) = check_fixed_builder(0, full, 100, &cells, &mut p) {
+            p.viol(v);
+          }
+        }
+      }
+      for d in [1u8, 2] {
+        let per = 1u64 << (2 * d as u32);
+        for len in 1..=(12 - j as u64) {
+          let cells: Vec<u64> = (j as u64 * per..(j as u64 + len) * per).collect();
+          for cap in [cells.len() + 1, 7] {
+            p.stratum("fixed-depth-builder", 1, 1);
+            if let Some(v) = check_fixed_builder(d, true, cap, &cells, &mut p) {
+              p.viol(v);
+            }
+          }
+        }
+      }
+    }
     // unsafe builder on a slice of the valid-sequence universe
     for (k, bm) in seq_universe.iter().enumerate() {
       if k % 16 != j {
